@@ -571,6 +571,18 @@ func TestCheck(t *testing.T) {
 			Family string `json:"family"`
 		}
 		r.DecodeReplay(&fam)
+		if fam.Family == "reorder" {
+			var rc ReorderCase
+			r.DecodeReplay(&rc)
+			k, d := executeReorder(t, rc)
+			r.Eval(1)
+			r.Transition(len(rc.Script))
+			r.State(1)
+			if k != "" && k != "setup" {
+				r.Fail(k, fmt.Sprintf("%s: %s", rc, d), len(rc.Script), rc)
+			}
+			return
+		}
 		if fam.Family == "same-address" {
 			var sc SameAddrCase
 			r.DecodeReplay(&sc)
@@ -720,6 +732,20 @@ func TestCheck(t *testing.T) {
 			if k != "" {
 				r.Fail(k, fmt.Sprintf("%s: %s", sc, d), 10, sc)
 			}
+		}
+	}
+	// reordered delivery (scripted): spread over the shards
+	for i, rc := range reorderCases(r.Thorough()) {
+		if i%r.NShards != r.Shard || r.OverBudget() {
+			continue
+		}
+		k, d := executeReorder(t, rc)
+		r.Eval(1)
+		r.Transition(len(rc.Script))
+		r.State(mc.Hash("reorder", k))
+		r.Nontrivial(mc.Hash(rc.String()))
+		if k != "" && k != "setup" {
+			r.Fail(k, fmt.Sprintf("%s: %s", rc, d), len(rc.Script), rc)
 		}
 	}
 	// Layer T: thread interleavings of concurrent sessions (Engine T)
